@@ -92,39 +92,37 @@ pub fn c14_exp_hessian_is_derivative_of_grad() {
 }
 
 /// higher_correction(ds, v) == -1/2 * d/dt [ H(z + t v) u ] at t=0, where H u = ds
-#[kani::proof]
-#[kani::unwind(14)]
-pub fn c14_exp_higher_correction_is_third_derivative() {
-    let z = any_point();
-    kani::assume(exp_admissible(&z));
-    let v = [F::any(), F::any(), F::any()];
-    let u = [F::any(), F::any(), F::any()];
-    let zj = jets(&z, &v);
-    let mut c = ExponentialCone::<J>::new();
+fn exp_higher_correction<const Q: u16>() {
+    let z = any_point_q::<Q>();
+    kani::assume((z[0].0 != 0 && z[2].0 != 0));
+    let v = [Fp::<Q>::any(), Fp::<Q>::any(), Fp::<Q>::any()];
+    let u = [Fp::<Q>::any(), Fp::<Q>::any(), Fp::<Q>::any()];
+    let zj = jets_q::<Q>(&z, &v);
+    let mut c = ExponentialCone::<Jet<Q>>::new();
     xh::update_dual_grad_H(&mut c, &zj);
     let g = xh::grad(&c);
     kani::assume(g[1].a.0 != 0);
     xh::set_z(&mut c, zj);
     let h = unpack(&xh::H_dual(&c));
     // ds := H u  (value parts), so that the Newton-scaled direction recovered inside is u
-    let mut ds = [J::zero(); 3];
-    let mut want = [F::zero(); 3];
+    let mut ds = [Jet::<Q>::zero(); 3];
+    let mut want = [Fp::<Q>::zero(); 3];
     let mut i = 0;
     while i < 3 {
-        let mut acc = F::zero();
-        let mut dacc = F::zero();
+        let mut acc = Fp::<Q>::zero();
+        let mut dacc = Fp::<Q>::zero();
         let mut k = 0;
         while k < 3 {
             acc = acc + h[i][k].a * u[k];
             dacc = dacc + h[i][k].b * u[k];
             k += 1;
         }
-        ds[i] = J::constant(acc);
+        ds[i] = Jet::<Q>::constant(acc);
         want[i] = dacc; // (d/dt H(z+tv)) u
         i += 1;
     }
-    let vj = [J::constant(v[0]), J::constant(v[1]), J::constant(v[2])];
-    let mut eta = [J::zero(); 3];
+    let vj = [Jet::<Q>::constant(v[0]), Jet::<Q>::constant(v[1]), Jet::<Q>::constant(v[2])];
+    let mut eta = [Jet::<Q>::zero(); 3];
     // the Cholesky solve inside needs all leading principal minors of H nonzero (over the reals H is
     // positive definite, so they are positive; in GF(p) `t <= 0` means t == 0 and the code then sets eta = 0)
     let m2 = h[0][0].a * h[1][1].a - h[0][1].a * h[0][1].a;
@@ -132,13 +130,42 @@ pub fn c14_exp_higher_correction_is_third_derivative() {
         + h[0][2].a * (h[0][1].a * h[1][2].a - h[1][1].a * h[0][2].a);
     kani::assume(h[0][0].a.0 != 0 && m2.0 != 0 && det.0 != 0);
     xh::higher_correction(&mut c, &mut eta, &ds, &vj);
-    let two = F::new(2);
+    let two = Fp::<Q>::new(2);
     let mut i = 0;
     while i < 3 {
         assert!(eta[i].a * two == -want[i], "third_order_correction_is_minus_half_third_derivative_contracted_with_u_and_v");
         i += 1;
     }
-    kani::cover!(u[0].0 == 2 && v[2].0 == 3 && eta[0].a.0 > 0, "nontrivial directions");
+    kani::cover!(true, "opt: end reached");
+    kani::cover!(eta[0].a.0 != 0, "opt: eta0 nonzero");
+    kani::cover!(eta[1].a.0 != 0, "opt: eta1 nonzero");
+    kani::cover!(eta[2].a.0 != 0, "opt: eta2 nonzero");
+    kani::cover!(eta[0].a.0 != 0 && eta[2].a.0 != 0, "nonzero correction reached");
+    kani::cover!(u[0].0 == 2 && v[2].0 == 3 && eta[0].a.0 > 0, "opt: nontrivial directions");
+}
+
+
+#[kani::proof]
+#[kani::unwind(14)]
+pub fn c14_exp_higher_correction_is_third_derivative() {
+    exp_higher_correction::<13>();
+}
+#[kani::proof]
+#[kani::unwind(14)]
+pub fn c14_exp_higher_correction_is_third_derivative_p7() {
+    exp_higher_correction::<7>();
+}
+#[kani::proof]
+#[kani::unwind(14)]
+pub fn c14_exp_higher_correction_is_third_derivative_p11() {
+    exp_higher_correction::<11>();
+}
+
+fn any_point_q<const Q: u16>() -> [Fp<Q>; 3] {
+    [Fp::<Q>::any_nonzero(), Fp::<Q>::any(), Fp::<Q>::any_nonzero()]
+}
+fn jets_q<const Q: u16>(z: &[Fp<Q>; 3], dir: &[Fp<Q>; 3]) -> [Jet<Q>; 3] {
+    [Jet::<Q>::new(z[0], dir[0]), Jet::<Q>::new(z[1], dir[1]), Jet::<Q>::new(z[2], dir[2])]
 }
 
 // ------------------------------------------------------------------------------------------
@@ -191,44 +218,70 @@ pub fn c14_pow_hessian_is_derivative_of_grad() {
     kani::cover!(j == 1 && h[1][1].a.0 > 1);
 }
 
-#[kani::proof]
-#[kani::unwind(14)]
-pub fn c14_pow_higher_correction_is_third_derivative() {
-    let v = [F::any(), F::any(), F::any()];
-    let u = [F::any(), F::any(), F::any()];
-    let (mut c, zj) = pow_setup(&v);
+fn pow_higher_correction<const Q: u16>() {
+    let v = [Fp::<Q>::any(), Fp::<Q>::any(), Fp::<Q>::any()];
+    let u = [Fp::<Q>::any(), Fp::<Q>::any(), Fp::<Q>::any()];
+    let (mut c, zj) = pow_setup_q::<Q>(&v);
     ph::set_z(&mut c, zj);
     let h = unpack(&ph::H_dual(&c));
-    let mut ds = [J::zero(); 3];
-    let mut want = [F::zero(); 3];
+    let mut ds = [Jet::<Q>::zero(); 3];
+    let mut want = [Fp::<Q>::zero(); 3];
     let mut i = 0;
     while i < 3 {
-        let mut acc = F::zero();
-        let mut dacc = F::zero();
+        let mut acc = Fp::<Q>::zero();
+        let mut dacc = Fp::<Q>::zero();
         let mut k = 0;
         while k < 3 {
             acc = acc + h[i][k].a * u[k];
             dacc = dacc + h[i][k].b * u[k];
             k += 1;
         }
-        ds[i] = J::constant(acc);
+        ds[i] = Jet::<Q>::constant(acc);
         want[i] = dacc;
         i += 1;
     }
-    let vj = [J::constant(v[0]), J::constant(v[1]), J::constant(v[2])];
-    let mut eta = [J::zero(); 3];
+    let vj = [Jet::<Q>::constant(v[0]), Jet::<Q>::constant(v[1]), Jet::<Q>::constant(v[2])];
+    let mut eta = [Jet::<Q>::zero(); 3];
     let m2 = h[0][0].a * h[1][1].a - h[0][1].a * h[0][1].a;
     let det = h[0][0].a * (h[1][1].a * h[2][2].a - h[1][2].a * h[1][2].a) - h[0][1].a * (h[0][1].a * h[2][2].a - h[1][2].a * h[0][2].a)
         + h[0][2].a * (h[0][1].a * h[1][2].a - h[1][1].a * h[0][2].a);
     kani::assume(h[0][0].a.0 != 0 && m2.0 != 0 && det.0 != 0);
     ph::higher_correction(&mut c, &mut eta, &ds, &vj);
-    let two = F::new(2);
+    let two = Fp::<Q>::new(2);
     let mut i = 0;
     while i < 3 {
         assert!(eta[i].a * two == -want[i], "third_order_correction_is_minus_half_third_derivative_contracted_with_u_and_v");
         i += 1;
     }
     kani::cover!(u[1].0 == 2 && v[0].0 == 3 && eta[1].a.0 > 0);
+}
+
+
+fn pow_setup_q<const Q: u16>(dir: &[Fp<Q>; 3]) -> (PowerCone<Jet<Q>>, [Jet<Q>; 3]) {
+    let z = [Fp::<Q>::any_nonzero(), Fp::<Q>::any_nonzero(), Fp::<Q>::any_nonzero()];
+    let alpha = Fp::<Q>::any();
+    kani::assume(alpha.0 != 0 && alpha.0 != 1);
+    let zj = jets_q::<Q>(&z, dir);
+    let mut c = PowerCone::<Jet<Q>>::new(Jet::<Q>::constant(alpha));
+    ph::update_dual_grad_H(&mut c, &zj);
+    let g = ph::grad(&c);
+    kani::assume(g[2].a.0 != 0); // psi finite and nonzero
+    (c, zj)
+}
+#[kani::proof]
+#[kani::unwind(14)]
+pub fn c14_pow_higher_correction_is_third_derivative() {
+    pow_higher_correction::<13>();
+}
+#[kani::proof]
+#[kani::unwind(14)]
+pub fn c14_pow_higher_correction_is_third_derivative_p7() {
+    pow_higher_correction::<7>();
+}
+#[kani::proof]
+#[kani::unwind(14)]
+pub fn c14_pow_higher_correction_is_third_derivative_p5() {
+    pow_higher_correction::<5>();
 }
 
 /// dual scaling fallback: Hs = mu * H
